@@ -27,6 +27,7 @@ func runC17(c *Ctx) {
 	c.rule("dispatch-total", "the result of the re-read is dispatched by a type switch: nil -> ReportNewValue(the value just read); unchanged -> nothing; every other error -> ReportError (a not-exist syscall error excepted)", 3)
 	c.rule("blank-delegation", "(shared with C20) the ez entry points install the watched file through Blank.SetSource: the inner Watch gets the Dials watch context saved by Blank.Watch (not the SetSource caller's), the saved type and arguments", 5)
 	c.rule("blank-locking", "(shared with C20) Blank's fields are accessed under its mutex", 8)
+	c.rule("exit-on-fresh-scan", "(shared with C05/C08) the monitor keeps stacking the file source's reports until a complete scan of the watching bits finds no watcher: another source calling Done never stops a still-watching file source from being heard", 1)
 	c.rule("release", "the loop goroutine defers watcher.Close, WG.Done and signal.Stop at entry, returns on <-ctx.Done(), and WG.Add(1) precedes `go`", 4)
 
 	w := c.W
@@ -362,6 +363,9 @@ func runC17(c *Ctx) {
 	c.check(goI != nil && addI != nil && domI(addI, goI) && staticCallee(goI) == origin(loop), "release", relName(watch)+"#wg", watch.Pos(), "WG.Add(1) precedes `go watchLoop`", "WG.Add does not precede the start of the loop goroutine")
 	_ = token.ADD
 	c20Blank(c)
+	if kk := loadCore(c); kk.ok {
+		kk.checkExitOnFreshScan("exit-on-fresh-scan")
+	}
 }
 
 func isReportCall(i ssa.Instruction) bool {
